@@ -107,10 +107,10 @@ class RTDCBase(abc.ABC):
             ct = True
         else:
             # Check ancillary features data
-            if feat in self._ancillaries:
-                # already computed
-                ct = True
-            elif feat in AncillaryFeature.feature_names:
+            # (Do not rely on `self._ancillaries` here, because `__getitem__`
+            # only returns cached data of features that can still be
+            # computed with the current configuration.)
+            if feat in AncillaryFeature.feature_names:
                 # get all instance of AncillaryFeature that
                 # check availability of the feature `feat`
                 instlist = AncillaryFeature.get_instances(feat)
